@@ -424,7 +424,8 @@ def main(run, replay=None):
         for init in g.init:
             uc = bool(g.states[init]["usingCache"])
             for vi, variant in enumerate(VARIANTS):
-                for D in ([1, 2, 3] if thorough else [2]):
+                # Householder products in 2 dimensions are always symmetric or rotations; 3 features make Q generic
+                for D in ([1, 2, 3] if thorough else ([3] if cls in ("QRLinear", "SVDLinear") else [2])):
                     for rep in range(3 if thorough else 1):
                         tasks.append((cls, D, uc, run.seed * 1000 + 10 * vi + rep, variant, g, init, 6000 if thorough else 2500, 600 if thorough else 150, "%s/D=%d/uc=%s/%s" % (cls, D, uc, variant)))
     traces_by_shape = {}
